@@ -14,57 +14,10 @@ SByte(c, e, q) == IF q < 0 THEN 0 ELSE ((q * 7 + (IF e = "c" THEN 3 ELSE 11) + L
 F == INSTANCE FollowerAbs WITH ByteOf <- SByte
 Init == \E s \in Starts : TraceInit(s) /\ conns = <<>>
 
-Cbs(kind) == {x \in Range(Ev.cb) : x.k = kind}
 Pkt == /\ IsEvent("pkt")
-       /\ LET p == Ev
-              c == p.conn
-              cfg == [attach |-> Cfg.attach]
-              live0 == F!Live(conns, c)
-              creates == F!Creates(conns, cfg, p)
-              tracked == live0 \/ creates
-              cn0 == IF live0 THEN conns[c] ELSE IF creates THEN F!NewConn(p) ELSE <<>>
-              cn1 == IF tracked THEN F!Upd(cn0, p) ELSE <<>>
-              fin == tracked /\ F!Finished(cn1)
-              over == tracked /\ (p.chunks > Cfg.maxChunks \/ p.bytes > Cfg.maxBytes)
-              \* entries that MUST be gone (idle >= 2*keepAlive) and entries that MAY be gone (idle >= keepAlive) after this packet
-              others == (DOMAIN conns) \ {c}
-              mustGo == {d \in others : p.ts - conns[d].last >= 2 * Cfg.keepAlive}
-              mayGo  == {d \in others : p.ts - conns[d].last >= Cfg.keepAlive}
-              timedOut == {x.c : x \in {y \in Cbs("term") : y.r = "TIMEOUT"}}
-              \* the connection of this packet itself may be swept in the same call if it was created/kept ... never: its last = ts
-              keep == IF tracked /\ ~fin /\ ~over THEN {c} ELSE {}
-              liveAfter == keep \cup (others \ timedOut)
-          IN /\ p.thrown = ""
-             \* P1: announced exactly once, with the sender of the first packet as client
-             /\ (\E x \in Cbs("new") : x.c = c) <=> creates
-             /\ Cardinality(Cbs("new")) = (IF creates THEN 1 ELSE 0)
-             /\ \A x \in Cbs("new") : x.client = p.from
-             \* P2: data callbacks only for this connection, in the right direction, bytes as ReassemblyAbs demands
-             /\ \A x \in Cbs("cdata") \cup Cbs("sdata") : x.c = c /\ tracked
-             /\ tracked =>
-                  LET side == IF p.from = cn0.client THEN "cdata" ELSE "sdata"
-                      wrong == IF side = "cdata" THEN "sdata" ELSE "cdata"
-                      got == LET xs == Cbs(side) IN IF xs = {} THEN <<>> ELSE (CHOOSE x \in xs : TRUE).b
-                      d0 == cn0.dir[p.from]
-                      chunks == Range(p.buf[p.from])
-                  IN /\ Cbs(wrong) = {} /\ Cardinality(Cbs(side)) <= 1
-                     /\ IF p.len > 0
-                        THEN F!R!ArriveOKB(LAMBDA q : SByte(c, p.from, q), d0.arrived, d0.k, p.off, p.len,
-                                             cn1.dir[p.from].arrived, cn1.dir[p.from].k, got, chunks, F!R!SumLen(chunks))
-                        ELSE got = <<>>
-             \* P3: forgotten exactly when both sides sent FIN or either sent RST; closed reported once
-             /\ (\E x \in Cbs("closed") : x.c = c) <=> fin
-             /\ Cardinality(Cbs("closed")) = (IF fin THEN 1 ELSE 0)
-             \* P4: over the limits => terminated with BUFFERED_DATA, exactly once, and only then
-             /\ (\E x \in Cbs("term") : x.c = c /\ x.r = "BUFFERED_DATA") <=> (over /\ ~fin)
-             /\ \A x \in Cbs("term") : x.r \in {"BUFFERED_DATA", "TIMEOUT"}
-             /\ Cardinality({x \in Cbs("term") : x.r = "BUFFERED_DATA"}) <= 1
-             \* P5: timeouts only for idle entries, each once; nothing idle for two keep-alive periods survives
-             /\ timedOut \subseteq mayGo /\ mustGo \subseteq timedOut
-             /\ Cardinality({x \in Cbs("term") : x.r = "TIMEOUT"}) = Cardinality(timedOut)
-             \* what find_stream still finds
-             /\ Range(p.live) = liveAfter
-             /\ conns' = [d \in liveAfter |-> IF d = c THEN cn1 ELSE conns[d]]
+       /\ LET j == F!Judge(conns, [attach |-> Cfg.attach, keepAlive |-> Cfg.keepAlive, maxChunks |-> Cfg.maxChunks, maxBytes |-> Cfg.maxBytes], Ev) IN
+          /\ j.ok = TRUE
+          /\ conns' = j.next
 Next == Pkt
 Spec == Init /\ [][Next]_vars
 =============================================================================
